@@ -225,3 +225,44 @@ Example ex_read_parquet_dask :
              (read_parquet_dask ex_cols (Some "b") 2) =
   Some (Some "b", [Some (Some "b"); Some (Some "b")]).
 Proof. vm_compute. reflexivity. Qed.
+
+(* WIDE frames (more partitions than the fan-out 32 of Dask's task shuffle): the theorems above
+   quantify over every partition count; here 33 partitions, really shuffled *)
+Example ex_dask_wide_kept :
+  match from_pandas (mkFrame ex_cols CGeo (Some "b")) 33 with
+  | Some d => dops_keep_wf "b" d [DSortValues 32; DMapIdentity; DPackPartitions 8; DCx [0; 5]]
+  | None => false
+  end = true.
+Proof. vm_compute. reflexivity. Qed.
+
+Example ex_dask_wide_run :
+  match from_pandas (mkFrame ex_cols CGeo (Some "b")) 33 with
+  | Some d => match exec_dops d [DSortValues 32] with
+              | Some d' => (f_act (d_meta d'), List.length (d_parts d'),
+                            forallb (fun p => match p with
+                                              | Some f => andb (is_geo f) (opt_eqb (f_act f) (Some "b"))
+                                              | None => false end) (d_parts d'),
+                            option_map f_act (dcompute d'))
+              | None => (None, 0, false, None)
+              end
+  | None => (None, 0, false, None)
+  end = (Some "b", 32, true, Some (Some "b")).
+Proof. vm_compute. reflexivity. Qed.
+
+(* a plain column is plain whatever stores it (numpy block or a pandas extension array that is
+   not a geometry - str, category, Int64, tz-aware datetime ...: all KPlain): once every geometry
+   column is dropped the result is a plain DataFrame, on pandas and in every Dask partition *)
+Example ex_no_geometry_left_plain :
+  run_pops (mkFrame [("a", KGeom 0); ("name_str", KPlain); ("b", KGeom 2); ("v", KPlain)] CGeo (Some "b"))
+           [ODrop ["a"; "b"]]
+  = [Some (false, None, None, [("name_str", false); ("v", false)])]
+  /\ match from_pandas (mkFrame [("a", KGeom 0); ("name_str", KPlain); ("b", KGeom 2); ("v", KPlain)]
+                               CGeo (Some "b")) 3 with
+     | Some d => match exec_dops d [DSubset ["v"; "name_str"]] with
+                 | Some d' => (f_cls (d_meta d'), map (option_map f_cls) (d_parts d'),
+                               option_map f_cls (dcompute d'))
+                 | None => (CGeo, [], None)
+                 end
+     | None => (CGeo, [], None)
+     end = (CPlain, [Some CPlain; Some CPlain; Some CPlain], Some CPlain).
+Proof. vm_compute. auto. Qed.
